@@ -200,6 +200,11 @@ func (m *SessionManager) CreateSession(clientMAC, serverMAC net.HardwareAddr) (*
 	m.mu.Lock()
 	defer m.mu.Unlock()
 
+	// All 65535 usable session IDs taken: the scan below would never end
+	if len(m.sessions) >= 0xFFFF {
+		return nil, fmt.Errorf("session table full: no free session ID")
+	}
+
 	// Find next available session ID
 	for {
 		if _, exists := m.sessions[m.nextID]; !exists {
